@@ -1,13 +1,13 @@
 """python tools/keep_seeded.py <Cxx> <n> <caught:yes|no> "<oracles/notes>" : copy a confirmed sub-agent change into seeded/"""
 import json, os, shutil, sys
 prop, n, caught, notes = sys.argv[1], sys.argv[2], sys.argv[3], sys.argv[4]
-src = f"/tmp/wt_{prop}/out{n}"
-dst = f"/verif/seeded/{prop}-{n}"
+src = os.environ.get("SEEDED_SRC", f"/tmp/wt_{prop}/out{n}")
+dst = os.environ.get("SEEDED_DST", f"/verif/seeded/{prop}-{n}")
 os.makedirs(dst, exist_ok=True)
 for f in ("patch.diff", "demo.py", "notes.txt"):
     shutil.copy(os.path.join(src, f), os.path.join(dst, f))
 meta = dict(
-    id=f"{prop}-{n}", property=prop,
+    id=os.path.basename(dst), property=prop,
     source="fresh sub-agent given only the property text and a scratch worktree of /repo",
     needs_to_manifest=open(os.path.join(src, "notes.txt")).read().strip(),
     confirmed=dict(
